@@ -19,7 +19,11 @@ structure LawfulQuarter (α P : Type) [CommRing α] [Amp α P] : Prop where
   cos_q_neg : ∀ x : P, (Amp.cos (Amp.phalf α (Amp.phalf α (Amp.pneg α x))) : α) = Amp.cos (Amp.phalf α (Amp.phalf α x))
   sin_q_neg : ∀ x : P, (Amp.sin (Amp.phalf α (Amp.phalf α (Amp.pneg α x))) : α) = -Amp.sin (Amp.phalf α (Amp.phalf α x))
 
-set_option maxHeartbeats 1000000 in
+theorem scale_bd2 (k a b c d e f g h : α) :
+    CQ1.scale k (bd2 a b c d e f g h) = bd2 (k * a) (k * b) (k * c) (k * d) (k * e) (k * f) (k * g) (k * h) := by
+  simp [CQ1.scale, bd2]
+
+set_option maxHeartbeats 400000 in
 theorem cu3_assembled (h : LawfulAmp α P) (hh : LawfulHalf α P) (hn : LawfulNegHalf α P) (hq : LawfulQuarter α P)
     (θ φ l : P) :
     let a8 := Amp.phalf α (Amp.padd α φ l)
@@ -42,9 +46,35 @@ theorem cu3_assembled (h : LawfulAmp α P) (hh : LawfulHalf α P) (hn : LawfulNe
   have hsp : (specMatrix (.C (.U3 θ φ l)) : LMat α) = Spec.ctrl (specMatrix (.U3 θ φ l)) := rfl
   rw [hsp]
   simp only [a8, CQ1.mRz, CQ1.mRy, mCnot_bd, I4_eq, app2_cx', app2_target, app2_control2, specMatrix, expi, ctrl_two,
-    CQ1.scale, bd2, List.map, hn.cos_phalf_pneg, hn.sin_phalf_pneg, hq.cos_q_add, hq.sin_q_add, h.cos_padd, h.sin_padd,
+    scale_bd2, hn.cos_phalf_pneg, hn.sin_phalf_pneg, hq.cos_q_add, hq.sin_q_add, h.cos_padd, h.sin_padd,
     hq.cos_q_neg, hq.sin_q_neg]
-  rw [← t1, ← t2, ← p1, ← p2, ← l1, ← l2, ← p3, ← p4, ← l3, ← l4]
-  refine mat4_ext (row4_ext ?_ ?_ ?_ ?_) (row4_ext ?_ ?_ ?_ ?_) (row4_ext ?_ ?_ ?_ ?_) (row4_ext ?_ ?_ ?_ ?_) <;> grind
+  refine bd2_ext ?_ ?_ ?_ ?_ ?_ ?_ ?_ ?_ <;> grind
+
+end Q1t.Proofs.CQasm
+
+namespace Q1t.Proofs.CQasm
+open Q1t Q1t.Spec Q1t.OpenQasm Q1t.Proofs.Unitaries
+
+variable {α P : Type} [CommRing α] [Amp α P]
+
+/-! ### `CSdg`, `CTdg`: `cr c, t, <decimal literal>`
+
+The text is `cr c, t, -1.570796326794897` resp. `cr c, t, -0.7853981633974483`: by `cq_param_cu1` it denotes
+`CU1(x) = diag(1,1,1,e^{ix})` for `x` the value of the literal — a 16-digit decimal of `−π/2` resp. `−π/4`, not the
+irrational itself, so it is the controlled `S†` / `T†` only up to `|x − (−π/2)| ≤ 5·10⁻¹⁶`.  Exactly: -/
+
+/-- the controlled phase `e^{ix}` is the controlled `S†` precisely when `cos x = 0`, `sin x = −1` (i.e. `x ≡ −π/2`) -/
+theorem csdg_of_angle (x : P) (hc : (Amp.cos x : α) = 0) (hs : (Amp.sin x : α) = -1) :
+    (CQ1.mCPhase (Amp.cos x + Amp.I P * Amp.sin x) : LMat α) = specMatrix (.C (.Sdg : GateTerm P)) := by
+  simp [CQ1.mCPhase, specMatrix, Spec.ctrl, hc, hs, List.range_succ, List.replicate]
+
+/-- … and the controlled `T†` precisely when `cos x = 1/√2`, `sin x = −1/√2` (`x ≡ −π/4`) -/
+theorem ctdg_of_angle (h : LawfulAmp α P) (x : P) (hc : (Amp.cos x : α) = Amp.hsqrt2 P)
+    (hs : (Amp.sin x : α) = -Amp.hsqrt2 P) :
+    (CQ1.mCPhase (Amp.cos x + Amp.I P * Amp.sin x) : LMat α) = specMatrix (.C (.Tdg : GateTerm P)) := by
+  have hz := h.zeta8_eq
+  simp only [CQ1.mCPhase, specMatrix, Spec.ctrl, hc, hs, hz, h.conj_add, h.conj_mul, h.conj_hsqrt2, h.conj_I]
+  simp [List.range_succ, List.replicate]
+  ring
 
 end Q1t.Proofs.CQasm
